@@ -24,14 +24,15 @@ PID = "C05"
 MODES_FULL = [(0, 0), (1, 0), (1, 1), (1, 2), (1, 3), (1, 8), (1, 127), (1, 128), (1, 255), (2, 0)]
 MODES_SMALL = [(0, 0), (1, 2), (2, 0)]
 
-# pending findings (defects confirmed on the unchanged tree, patches in DEFECTS.md; keyed by the exact shape)
+# pending finding (confirmed on the current tree, patch in DEFECTS.md, not yet applied): keyed by the exact shape
 PENDING = {
-    "D8-nested-cdata": "a SyncML <Data> payload with more than one content item is emitted as nested CDATA sections (not well-formed)",
-    "D8-element-in-cdata": "an element that follows payload text inside a SyncML <Data> is emitted inside the CDATA section (read back as text)",
-    "D9-cdata-end-in-text": "']]>' inside payload text of a CDATA section ends the section early",
-    "D22-literal-root-xmlns": "a literal (unknown) root element in a language with a namespace table gets an xmlns chosen by the length of its name (code page read through the wrong union member)",
-    "D23-literal-parent-xmlns": "a token element whose parent is a literal (unknown) element gets no xmlns although its code page differs from the namespace in scope",
+    "binary-later-text": "text of a binary-flagged element that is not the element's first child is written raw instead of base64 "
+                         "(current_tag is reset after the first child); the XML is not well-formed when the octets are not XML characters",
 }
+
+# findings repaired in /repo (3c772f6 D8 tree builder, 0de0008 D9 CDATA split, 32930ca D28/D29 xmlns around literal
+# elements): their shapes are ordinary violations now.  `shapes` is kept for the evidence (how often the
+# generators reach these shapes).
 
 
 # ---------------------------------------------------------------------------------------------------------
@@ -129,7 +130,11 @@ def name_bytes(nm):
     return nm[5] if nm[0] == "t" else cstr(nm[1])
 
 
-def hypotheses(roots, why):
+def is_binary_elt(n):
+    return n is not None and n.kind == "E" and n.name[0] == "t" and bool(n.name[4] & 1)
+
+
+def hypotheses(roots, why, parent=None):
     """names are XML names, character data consists of XML characters, no element carries an attribute name twice.
     Appends the reasons to `why`; returns True when all hold."""
     ok = True
@@ -152,7 +157,8 @@ def hypotheses(roots, why):
             if b":" in name_bytes(n.name) and n.name[0] == "l":
                 why.append("prefixed-literal"); ok = False
         elif n.kind == "T":
-            if n.text is None or not is_chars(n.text):
+            # the content of a binary-flagged element is arbitrary octets (it is rendered as base64)
+            if n.text is None or (not is_binary_elt(parent) and not is_chars(n.text)):
                 why.append("chars"); ok = False
             if n.children:
                 why.append("children-on-text"); ok = False
@@ -161,27 +167,29 @@ def hypotheses(roots, why):
         elif n.kind == "S":
             if not hypotheses(n.sub[1], why):
                 ok = False
-        if n.kind != "S" and not hypotheses(n.children, why):
+        if n.kind != "S" and not hypotheses(n.children, why, n):
             ok = False
     return ok
 
 
 def shapes(roots, in_cdata=False, acc=None, parent=None):
-    """pending-finding shapes present in the tree"""
+    """noteworthy shapes present in the tree (sites of the repaired findings D8, D9, D28, D29)"""
     acc = set() if acc is None else acc
     if in_cdata:
         txt = b"".join(n.text or b"" for n in roots if n.kind == "T")
         if b"]]>" in txt:
-            acc.add("D9-cdata-end-in-text")
+            acc.add("cdata-end-in-text")
     for n in roots:
         if n.kind == "E" and n.name[0] == "l" and parent is None:
-            acc.add("D22-literal-root-xmlns")
+            acc.add("literal-root")
         if n.kind == "E" and n.name[0] == "t" and parent is not None and parent.kind == "E" and parent.name[0] == "l":
-            acc.add("D23-literal-parent-xmlns")
+            acc.add("token-under-literal")
+        if n.kind == "T" and is_binary_elt(parent) and n is not roots[0]:
+            acc.add("binary-later-text")
         if in_cdata and n.kind == "C":
-            acc.add("D8-nested-cdata")
+            acc.add("nested-cdata")
         if in_cdata and n.kind == "E":
-            acc.add("D8-element-in-cdata")
+            acc.add("element-in-cdata")
         if n.kind == "S":
             shapes(n.sub[1], False, acc, None)
         shapes(n.children, in_cdata or n.kind == "C", acc, n)
@@ -231,8 +239,6 @@ def expected(nodes, T, lang, gen_type, keep_ws, in_cdata=False, parent=None):
             if in_cdata:
                 t = norm_text(t)                     # raw inside the section: XML's own end-of-line handling applies in every mode
             elif binary:
-                if not first:
-                    raise Skip("mixed-content-in-binary-element")
                 if len(t) == 0:
                     raise Skip("empty-binary")      # conversion fails (base64 of nothing): the property speaks of successful conversions
                 t = base64.b64encode(t)
@@ -524,7 +530,7 @@ def run(ctx):
         "the model starts from the tree the C built (dumped by the harness before serialisation); the tree builder itself is not modelled",
         "text, PI and embedded-tree nodes have no children (true of every tree the WBXML tree builder makes; the driver refuses other dumps)",
         "isspace() is the C-locale function (space, HT, LF, VT, FF, CR)",
-        "a literal ROOT element in a language with a namespace table: the C reads the code page through the wrong union member (low byte of the literal's length on x86-64); modelled as such (finding D22; goes away with the fix in DEFECTS.md)",
+        "a literal ROOT element in a language with a namespace table: the C reads the code page through the wrong union member (low byte of the literal's length on x86-64); REPAIRED in /repo (32930ca): xmlns only for token names, compared with the nearest token-named ancestor",
         "oracle reading of 'exactly the character data': exact for compact/canonical; keep-whitespace off strips each text node and drops blank ones (not inside CDATA / binary elements / canonical mode); indented generation compared modulo blank text between markup in elements that have element children; XML end-of-line and attribute-value normalisation applied to the expectation outside canonical mode and inside CDATA sections",
     ]
     bad = common.forbidden_scan()
@@ -568,6 +574,7 @@ def run(ctx):
     model = {i: m for i, m in zip(midx, ma)}
 
     concrete, corr, pending_hits = [], [], {}
+    shape_count = {}
     kinds, verdicts, skipwhy = {}, {}, {}
     nontrivial = set()
     reads = []          # (index, xml bytes, pyexpat canonical infoset or None)
@@ -602,6 +609,9 @@ def run(ctx):
         toks = dump.split()
         v, det = judge(T, toks, g, kw, xml_bytes)
         verdicts[v] = verdicts.get(v, 0) + 1
+        if g == 0 and kw == 0:
+            for shp in shapes(parse_dump(toks)[1]):
+                shape_count[shp] = shape_count.get(shp, 0) + 1
         if v == "skip":
             for w in det["why"]:
                 skipwhy[w] = skipwhy.get(w, 0) + 1
@@ -618,13 +628,9 @@ def run(ctx):
             sh = shapes(roots)
             payload = {"wbxml": c["doc"].hex(), "forced": c["forced"], "mode": [g, ind], "keep_ws": kw, "xml": xml_bytes.decode("utf-8", "replace")[:2000],
                        "oracle": det, "kind": det["kind"], "case_kind": c["kind"]}
-            # the findings D8, D9 and the two literal-xmlns defects (D28, D29) were repaired in /repo
-            # (3c772f6, 0de0008, 32930ca): their shapes are ordinary violations now
-            key = None
-            if key:
-                pending_hits.setdefault(key, []).append(payload)
-            else:
-                concrete.append(payload)
+            payload["shapes"] = sorted(sh)
+            # the binary-later-text finding (D32) was repaired in /repo (093ad9f): an ordinary violation now
+            concrete.append(payload)
     for cr in crashes:
         concrete.append({"kind": "crash-or-sanitizer-report", **cr})
 
@@ -670,18 +676,16 @@ def run(ctx):
         "reader_vs_pyexpat_disagreements": len(read_bad),
         "theorem_spec_vs_pyexpat_compared": nspec,
         "theorem_spec_vs_pyexpat_disagreements": len(spec_bad),
+        "shapes_reached": shape_count,
         "pending_findings": {k: len(v) for k, v in pending_hits.items()},
     })
 
     # ---- verdict
     for k, hits in pending_hits.items():
-        if ctx.known(k):
-            ctx.report_known(k)
-        else:
-            print("KNOWN-FINDING: property=%s %s [pending, see props/C05/DEFECTS.md; first input wbxml=%s mode=%s keep_ws=%d]"
-                  % (PID, PENDING[k], hits[0]["wbxml"], hits[0]["mode"], hits[0]["keep_ws"]), flush=True)
-            if k not in ctx.known_hits:
-                ctx.known_hits.append(k)
+        print("KNOWN-FINDING: property=%s %s [pending, see props/C05/DEFECTS.md; first input wbxml=%s forced=%d mode=%s keep_ws=%d]"
+              % (PID, PENDING[k], hits[0]["wbxml"], hits[0]["forced"], hits[0]["mode"], hits[0]["keep_ws"]), flush=True)
+        if k not in ctx.known_hits:
+            ctx.known_hits.append(k)
     seen = set()
     for v in concrete:
         if v["kind"] in seen:          # one replay per kind of failure
